@@ -1153,6 +1153,7 @@ coap_notify_observers(coap_context_t *context, coap_resource_t *r,
       }
 
       coap_mid_t mid = COAP_INVALID_MID;
+      uint8_t prev_non_cnt = obs->non_cnt;
       obs->dirty = 0;
       /* initialize response */
       response = coap_pdu_init(COAP_MESSAGE_CON, 0, 0,
@@ -1260,6 +1261,7 @@ coap_notify_observers(coap_context_t *context, coap_resource_t *r,
       }
 
       if (obs) {
+        prev_non_cnt = obs->non_cnt;
         if (response->type == COAP_MESSAGE_CON ||
             (r->flags & COAP_RESOURCE_FLAGS_NOTIFY_NON_ALWAYS)) {
           obs->non_cnt = 0;
@@ -1293,6 +1295,9 @@ finish:
           if (s == obs) {
             /* obs not deleted during coap_send_internal() */
             obs->dirty = 1;
+            /* nothing was sent: the notification that replaces this one is
+               of the same type */
+            obs->non_cnt = prev_non_cnt;
             break;
           }
         }
